@@ -1,0 +1,41 @@
+//go:build verif
+// +build verif
+
+package transport
+
+import "sync/atomic"
+
+// Verification hook (build tag verif only): a read-only view of the shutdown state of a TCP server.
+// No behaviour of the package changes.
+
+// VerifC12Snap is what VerifC12Snapshot reads.
+type VerifC12Snap struct {
+	Closed       int32            // TarsServer.isClosed
+	ListenClosed int32            // tcpHandler.isListenClosed
+	Conns        map[string]int32 // connection key (remote address) -> numInvoke, for every entry of tcpHandler.conns
+	Queued       int              // len(pool.JobQueue); 0 without a pool
+	HasPool      bool
+}
+
+// VerifC12Snapshot returns the snapshot of ts; ok is false until Listen has installed the TCP handler.
+func VerifC12Snapshot(ts *TarsServer) (sn VerifC12Snap, ok bool) {
+	if ts == nil {
+		return sn, false
+	}
+	h, isTCP := ts.handle.(*tcpHandler)
+	if !isTCP || h == nil {
+		return sn, false
+	}
+	sn.Closed = atomic.LoadInt32(&ts.isClosed)
+	sn.ListenClosed = atomic.LoadInt32(&h.isListenClosed)
+	sn.Conns = map[string]int32{}
+	h.conns.Range(func(k, v interface{}) bool {
+		sn.Conns[k.(string)] = atomic.LoadInt32(&v.(*connInfo).numInvoke)
+		return true
+	})
+	if h.pool != nil {
+		sn.HasPool = true
+		sn.Queued = len(h.pool.JobQueue)
+	}
+	return sn, true
+}
